@@ -49,14 +49,25 @@ func (m *C14SliceGCMonitor) AfterPass(r *Runner, pv *PassView) error {
 					refd[s] = "ObjectDeployment " + k.Name
 				}
 			}
+			onlyInvisible := map[string]bool{}
 			for _, k := range r.KeysAt(engine.PKOGroup, "ObjectSet", idx) {
 				o := r.StateAt(k, idx)
 				for _, s := range sliceRefs(asMap(o["spec"])) {
+					if _, already := refd[s]; !already {
+						onlyInvisible[s] = r.W.HiddenFromDeploy[k]
+					} else if !r.W.HiddenFromDeploy[k] {
+						onlyInvisible[s] = false
+					}
 					refd[s] = "ObjectSet " + k.Name
 				}
 			}
 			if by, ok := refd[c.Key.Name]; ok {
-				return Violf("C14", "referenced-slice-deleted", "pass %d: ObjectSlice %s was deleted while %s still references it", pv.P.ID, c.Key.Name, by)
+				key := "referenced-slice-deleted"
+				if onlyInvisible[c.Key.Name] {
+					// every referrer is an ObjectSet created a moment ago that the package controller's cached list does not show yet
+					key += ":objectset-not-yet-visible-to-package-controller"
+				}
+				return Violf("C14", key, "pass %d: ObjectSlice %s was deleted while %s still references it", pv.P.ID, c.Key.Name, by)
 			}
 		case "update", "patch":
 			if c.Pre != nil && c.Post != nil && !kubesim.JSONEqual(c.Pre["objects"], c.Post["objects"]) {
